@@ -211,6 +211,8 @@ def impl_load_validate(doc, root_obj_factory, tmpdir, with_resave=True, prior_ro
     try:
         cert = HSMCertificate.from_jsonfile(path)
     except BaseException as e:
+        if type(e).__name__ == "Hang":
+            raise                      # the caller's time budget ran out: not an answer
         obs["error"] = type(e).__name__
         return obs
     obs["loaded"] = True
@@ -218,8 +220,9 @@ def impl_load_validate(doc, root_obj_factory, tmpdir, with_resave=True, prior_ro
     if prior_root_factory is not None:
         try:
             cert.validate_and_get_values(prior_root_factory())
-        except BaseException:
-            pass
+        except BaseException as e:
+            if type(e).__name__ == "Hang":
+                raise
     if root_obj_factory is not None:
         results = []
         root = root_obj_factory()
@@ -231,6 +234,8 @@ def impl_load_validate(doc, root_obj_factory, tmpdir, with_resave=True, prior_ro
                 r = cert.validate_and_get_values(root)[tg]
                 results.append(r)
             except BaseException as e:
+                if type(e).__name__ == "Hang":
+                    raise
                 results.append(("raises", type(e).__name__))
             finally:
                 cert._targets = saved
@@ -239,6 +244,8 @@ def impl_load_validate(doc, root_obj_factory, tmpdir, with_resave=True, prior_ro
         try:
             obs["resave"] = cert.to_dict()
         except BaseException as e:
+            if type(e).__name__ == "Hang":
+                raise
             obs["resave"] = None
             obs["resave_error"] = type(e).__name__
     return obs
